@@ -1,5 +1,6 @@
 import CoapVerif.Lemmas.BlockNet
 import CoapVerif.Lemmas.BlockSrcvHostile
+import CoapVerif.Lemmas.BlockTok
 /- C09, composed systems (Model/BlockNet.lean): RUN-level "at most once" with a ghost history.
 
    Block1 (`b1Step`): the ghost `g` is the list of request datagrams the server's lg_srcv has processed since the server
@@ -204,5 +205,213 @@ theorem b1Step_req (P : B1Par) (s : B1Sys) (i : Nat) (d : Req1) (hq : s.reqs[i]?
     (b1Step P s (B1Event.reqArrives i)).outs =
       s.outs ++ [(srcvStep P.cap P.junk P.maxBlk s.srv d.num d.m d.szx d.payload d.size1).2] := by
   simp [b1Step, hq]
+
+/-! ## Block2 (single-body mode): the epoch = the responses the lg_crcv has processed since it was last absent or
+(re-)initialised (`initial`: fresh from coap_send, or after an ETag change restarted the transfer) -/
+
+def b2Epoch (P : B2Par) (s : B2Sys) (g : List Resp) (e : B2Event) : List Resp :=
+  match (b2Step P s e).cli with
+  | none => []
+  | some c =>
+    if c.initial then []
+    else
+      match e with
+      | .rspArrives j _ => (match s.rsps[j]? with | some r => r :: g | none => g)
+      | _ => g
+
+def b2StepG (P : B2Par) (sg : B2Sys × List Resp) (e : B2Event) : B2Sys × List Resp :=
+  (b2Step P sg.1 e, b2Epoch P sg.1 sg.2 e)
+
+structure B2Ghost (P : B2Par) (sg : B2Sys × List Resp) : Prop where
+  empty : (∀ c, sg.1.cli = some c → c.initial = true) → sg.2 = []
+  h : ∀ c, sg.1.cli = some c → c.initial = false → HInv P.cap sg.2 c
+
+theorem b2_init_ghost (P : B2Par) : B2Ghost P ({}, []) :=
+  { empty := fun _ => rfl, h := (by intro c hc; cases hc) }
+
+/-- one response arriving (matched to a queued request or not): the ghost invariant is kept and a body handed over
+consists of bytes carried in THIS epoch.  No hypothesis on the response. -/
+theorem b2Rsp_ghost (cap : Nat) (junk : UInt8) (sent : Bool) (st : Option Crcv) (g : List Resp) (r : Resp)
+    (hst : ∀ c, st = some c → c.initial = false → HInv cap g c) :
+    (∀ c', (crcvStepS sent true cap junk st r).1 = some c' → c'.initial = false → HInv cap (r :: g) c') ∧
+    (∀ d l, (crcvStepS sent true cap junk st r).2 = CrcvOut.body d l →
+      l ≤ d.length ∧ ∀ o, o < l → ∃ v, d[o]? = some v ∧ SentIn (r :: g) o v) := by
+  rcases crcvStepS_cases sent true cap junk st r with he | ⟨_, _, he⟩
+  · rw [he]
+    exact crcvStep_hostile cap junk g r st _ _ hst rfl
+  · rw [he]
+    cases r.blk with
+    | none => exact ⟨fun c' hc => (by cases hc), fun d l hb => (by cases hb)⟩
+    | some b => exact ⟨fun c' hc => (by cases hc), fun d l hb => (by cases hb)⟩
+
+theorem srvOnReq_cli (P : B2Par) (s : B2Sys) (num szx : Nat) :
+    (srvOnReq P s num szx).cli = s.cli ∧ (srvOnReq P s num szx).outs = s.outs := by
+  unfold srvOnReq
+  split
+  · split
+    · split
+      · split <;> exact ⟨rfl, rfl⟩
+      · exact ⟨rfl, rfl⟩
+    · exact ⟨rfl, rfl⟩
+  · split <;> exact ⟨rfl, rfl⟩
+
+theorem b2StepG_ghost (P : B2Par) (hs : P.single = true) (sg : B2Sys × List Resp) (e : B2Event) (hg : B2Ghost P sg) :
+    B2Ghost P (b2StepG P sg e) := by
+  obtain ⟨s, g⟩ := sg
+  have hsame : (b2Step P s e).cli = s.cli → (∀ c, s.cli = some c → c.initial = false → b2Epoch P s g e = g) →
+      B2Ghost P (b2StepG P (s, g) e) := by
+    intro h1 h2
+    have hep : b2Epoch P s g e = g := by
+      cases hc : s.cli with
+      | none =>
+        have : b2Epoch P s g e = [] := by unfold b2Epoch; rw [h1, hc]
+        rw [this]
+        exact (hg.empty (by intro c hc'; rw [hc] at hc'; cases hc')).symm
+      | some c =>
+        cases hi : c.initial with
+        | true =>
+          have : b2Epoch P s g e = [] := by unfold b2Epoch; rw [h1, hc]; simp only [hi, if_true]
+          rw [this]
+          exact (hg.empty (by intro c' hc'; rw [hc] at hc'; cases hc'; exact hi)).symm
+        | false => exact h2 c hc hi
+    refine { empty := ?_, h := ?_ }
+    · intro hn
+      show b2Epoch P s g e = []
+      rw [hep]
+      exact hg.empty (by intro c hc; exact hn c (by show (b2Step P s e).cli = some c; rw [h1]; exact hc))
+    · intro c hc hi
+      show HInv P.cap (b2Epoch P s g e) c
+      rw [hep]
+      have hc' : (b2Step P s e).cli = some c := hc
+      rw [h1] at hc'
+      exact hg.h c hc' hi
+  have hinner : ∀ (e : B2Event), (b2Step P s e).cli = s.cli → (∀ j b, e ≠ B2Event.rspArrives j b) →
+      ∀ c, s.cli = some c → c.initial = false → b2Epoch P s g e = g := by
+    intro e h1 hne c hc hi
+    unfold b2Epoch
+    rw [h1, hc]
+    cases e with
+    | rspArrives j b => exact (hne j b rfl).elim
+    | appGet szx => simp only [hi, Bool.false_eq_true, if_false]
+    | reqArrives i => simp only [hi, Bool.false_eq_true, if_false]
+    | srvExpire => simp only [hi, Bool.false_eq_true, if_false]
+    | cliExpire => simp only [hi, Bool.false_eq_true, if_false]
+    | cliNew => simp only [hi, Bool.false_eq_true, if_false]
+  cases e with
+  | appGet szx => exact hsame rfl (hinner _ rfl (by intro j b h; cases h))
+  | srvExpire => exact hsame rfl (hinner _ rfl (by intro j b h; cases h))
+  | reqArrives i =>
+    have h1 : (b2Step P s (B2Event.reqArrives i)).cli = s.cli := by
+      simp only [b2Step]
+      split
+      · exact (srvOnReq_cli P s _ _).1
+      · rfl
+    exact hsame h1 (hinner _ h1 (by intro j b h; cases h))
+  | cliExpire => exact { empty := fun _ => rfl, h := (by intro c hc; cases hc) }
+  | cliNew =>
+    refine { empty := fun _ => rfl, h := ?_ }
+    intro c hc hi
+    have hc' : some ({} : Crcv) = some c := hc
+    cases hc'
+    cases hi
+  | rspArrives j sent =>
+    cases hq : s.rsps[j]? with
+    | none =>
+      have h1 : (b2Step P s (B2Event.rspArrives j sent)).cli = s.cli := by simp only [b2Step, hq]
+      apply hsame h1
+      intro c hc hi
+      unfold b2Epoch
+      rw [h1, hc]
+      simp only [hi, Bool.false_eq_true, if_false, hq]
+    | some r =>
+      have h1 : (b2Step P s (B2Event.rspArrives j sent)).cli = (crcvStepS sent true P.cap P.junk s.cli r).1 := by
+        simp only [b2Step, hq, hs]
+      obtain ⟨k1, _⟩ := b2Rsp_ghost P.cap P.junk sent s.cli g r hg.h
+      refine { empty := ?_, h := ?_ }
+      · intro hn
+        show b2Epoch P s g (B2Event.rspArrives j sent) = []
+        unfold b2Epoch
+        cases hc : (b2Step P s (B2Event.rspArrives j sent)).cli with
+        | none => rfl
+        | some c =>
+          have := hn c hc
+          simp only [this, if_true]
+      · intro c hc hi
+        have hc' : (b2Step P s (B2Event.rspArrives j sent)).cli = some c := hc
+        show HInv P.cap (b2Epoch P s g (B2Event.rspArrives j sent)) c
+        unfold b2Epoch
+        rw [hc']
+        simp only [hi, Bool.false_eq_true, if_false, hq]
+        exact k1 c (by rw [← h1]; exact hc') hi
+
+theorem b2StepG_fst (P : B2Par) : ∀ (evs : List B2Event) (sg : B2Sys × List Resp),
+    (evs.foldl (b2StepG P) sg).1 = evs.foldl (b2Step P) sg.1
+  | [], _ => rfl
+  | e :: evs, sg => b2StepG_fst P evs (b2StepG P sg e)
+
+theorem b2RunG_inv (P : B2Par) (hP : B2ParOK P) (hs : P.single = true) :
+    ∀ (evs : List B2Event) (sg : B2Sys × List Resp), B2Inv P sg.1 → B2Ghost P sg →
+      B2Inv P (evs.foldl (b2StepG P) sg).1 ∧ B2Ghost P (evs.foldl (b2StepG P) sg)
+  | [], _, h1, h2 => ⟨h1, h2⟩
+  | e :: evs, sg, h1, h2 =>
+    b2RunG_inv P hP hs evs (b2StepG P sg e) (b2Step_inv P hP sg.1 e h1) (b2StepG_ghost P hs sg e h2)
+
+theorem b2Step_rsp (P : B2Par) (s : B2Sys) (j : Nat) (sent : Bool) (r : Resp) (hq : s.rsps[j]? = some r) :
+    (b2Step P s (B2Event.rspArrives j sent)).cli = (crcvStepS sent P.single P.cap P.junk s.cli r).1 ∧
+    (b2Step P s (B2Event.rspArrives j sent)).outs = s.outs ++ [(crcvStepS sent P.single P.cap P.junk s.cli r).2] := by
+  simp [b2Step, hq]
+
+/-- events after which the client cannot have been given a new transfer: no request sent by the application through
+coap_send() with an lg_crcv set up (`cliNew`), no response matched to a request that is still queued -/
+def B2Event.unsolicited : B2Event → Bool
+  | .rspArrives _ sent => !sent
+  | .cliNew => false
+  | _ => true
+
+/-- the client without lg_crcv: along any sequence of such events (replays of ANY response datagrams, in any number and
+order, among them) the handler is not called and no lg_crcv appears -/
+theorem b2_unsolicited_run (P : B2Par) (hP : B2ParOK P) : ∀ (evs : List B2Event) (s : B2Sys), B2Inv P s → s.cli = none →
+    (∀ e, e ∈ evs → e.unsolicited = true) →
+    (evs.foldl (b2Step P) s).cli = none ∧ ∀ o, o ∈ (evs.foldl (b2Step P) s).outs → o ∈ s.outs ∨ o = CrcvOut.skip
+  | [], s, _, hc, _ => ⟨hc, fun o ho => Or.inl ho⟩
+  | e :: evs, s, hinv, hc, hu => by
+    have he := hu e List.mem_cons_self
+    have hstep : (b2Step P s e).cli = none ∧ ∀ o, o ∈ (b2Step P s e).outs → o ∈ s.outs ∨ o = CrcvOut.skip := by
+      cases e with
+      | appGet szx => exact ⟨hc, fun o ho => Or.inl ho⟩
+      | srvExpire => exact ⟨hc, fun o ho => Or.inl ho⟩
+      | cliExpire => exact ⟨rfl, fun o ho => Or.inl ho⟩
+      | cliNew => cases he
+      | reqArrives i =>
+        simp only [b2Step]
+        split
+        · obtain ⟨a, b⟩ := srvOnReq_cli P s _ _
+          rw [a, b]
+          exact ⟨hc, fun o ho => Or.inl ho⟩
+        · exact ⟨hc, fun o ho => Or.inl ho⟩
+      | rspArrives j sent =>
+        have hsent : sent = false := by cases sent with | true => cases he | false => rfl
+        subst hsent
+        cases hq : s.rsps[j]? with
+        | none =>
+          simp only [b2Step, hq]
+          exact ⟨hc, fun o ho => Or.inl ho⟩
+        | some r =>
+          obtain ⟨a, b⟩ := b2Step_rsp P s j false r hq
+          obtain ⟨num, szx, k, g1, _⟩ := hinv.rsp r (List.mem_of_getElem? hq)
+          have hskip : crcvStepS false P.single P.cap P.junk s.cli r = (none, CrcvOut.skip) := by
+            rw [hc]
+            exact crcvStepS_unsolicited P.single P.cap P.junk r (by rw [g1]; exact fun h => (by cases h))
+          rw [a, b, hskip]
+          refine ⟨rfl, fun o ho => ?_⟩
+          rcases List.mem_append.mp ho with ho | ho
+          · exact Or.inl ho
+          · rw [List.mem_singleton] at ho; exact Or.inr ho
+    obtain ⟨r1, r2⟩ := b2_unsolicited_run P hP evs (b2Step P s e) (b2Step_inv P hP s e hinv) hstep.1
+      (fun e' he' => hu e' (List.mem_cons_of_mem _ he'))
+    refine ⟨r1, fun o ho => ?_⟩
+    rcases r2 o ho with h | h
+    · exact hstep.2 o h
+    · exact Or.inr h
 
 end Coap.Block
